@@ -714,6 +714,10 @@ func c03Tracker(p *core.Program, r *core.Report) {
 		Target: func(q cfgx.Point) bool { return g.IsExit(q) },
 		Cut:    func(q cfgx.Point) bool { return q == pp || q == np },
 		CutEdge: func(b *cfgBlock, k int) bool {
+			// a loop over a generator that never ends by itself is not left on its "exhausted" edge
+			if rs, isRange := b.Stmt.(*ast.RangeStmt); isRange && b.Kind == kindRangeLoop && k == 1 && endlessGenerator(p, sf, rs.X) {
+				return true
+			}
 			// the "already bound" edge: `_, ok := pathToName[path]; ok` true
 			if len(b.Succs) != 2 || len(b.Nodes) == 0 {
 				return false
@@ -855,7 +859,7 @@ func c03R10(p *core.Program, r *core.Report) {
 		info := f.Info()
 		for _, c := range core.Calls(f.Body, true) {
 			sel, ok := ast.Unparen(c.Fun).(*ast.SelectorExpr)
-			if !ok || !isRole(p, core.FieldOf(info, sel.X), "file.body") {
+			if !ok || !roleValue(p, info, sel.X, "file.body") {
 				continue
 			}
 			n++
@@ -922,4 +926,53 @@ func c03R11(p *core.Program, r *core.Report) {
 	if bad == 0 {
 		r.OK(rule, nil, "no string constant of the printers spells a qualified identifier", token.NoPos, itoa(int64(n))+" string constants scanned")
 	}
+}
+
+// endlessGenerator: e is a push iterator of the module (a method value or function value) whose body returns only after
+// its yield answered false: from its entry no exit is reachable once the edges on which a yield call answered false are
+// removed. A range loop over it is never left because the sequence ran out.
+func endlessGenerator(p *core.Program, f *core.Func, e ast.Expr) bool {
+	info := f.Info()
+	e, _ = core.Resolve(info, f.Root().Body, e)
+	var fn *types.Func
+	switch x := ast.Unparen(e).(type) {
+	case *ast.SelectorExpr:
+		if s := info.Selections[x]; s != nil && s.Kind() == types.MethodVal {
+			fn, _ = s.Obj().(*types.Func)
+		} else {
+			fn, _ = info.ObjectOf(x.Sel).(*types.Func)
+		}
+	case *ast.Ident:
+		fn, _ = info.ObjectOf(x).(*types.Func)
+	}
+	h := p.FuncOfObj(fn)
+	if h == nil || h.Body == nil {
+		return false
+	}
+	y := yieldParam(h)
+	if y == nil || !yieldVars(p)[y] {
+		return false
+	}
+	hinfo := h.Info()
+	g := graph(h)
+	_, exits := g.Reach(g.Entry(), true, cfgx.Query{
+		Target: func(q cfgx.Point) bool { return g.IsExit(q) },
+		CutEdge: func(b *cfgBlock, k int) bool {
+			if len(b.Succs) != 2 || len(b.Nodes) == 0 {
+				return false
+			}
+			c, ok := b.Nodes[len(b.Nodes)-1].(ast.Expr)
+			if !ok {
+				return false
+			}
+			for _, a := range cfgx.Atoms(c, k == 0) {
+				x, _ := core.Resolve(hinfo, h.Body, a.Cond)
+				if call, isCall := ast.Unparen(x).(*ast.CallExpr); isCall && !a.Val && core.VarOf(hinfo, call.Fun) == y {
+					return true
+				}
+			}
+			return false
+		},
+	})
+	return !exits
 }
